@@ -272,9 +272,9 @@ def main():
             print(json.dumps(w, indent=1)[:3000])
         return 0
     th = a.tier == 'thorough'
-    for r in parallel(worker, [(bindir, i, 1000 if not th else 6000) for i in range(16)]):
+    for r in parallel(worker, [(bindir, i, 1000 if not th else 25000) for i in range(16)]):
         rep.merge(r)
-    for r in parallel(binary_worker, [(bindir, i, 60 if not th else 400) for i in range(16)]):
+    for r in parallel(binary_worker, [(bindir, i, 60 if not th else 1200) for i in range(16)]):
         rep.merge(r)
     return rep.finish(
         rule='pair lists of 1..6 pairs of arbitrary byte strings (incl. the same signature listed for two keys and the same key with two signatures); scripts over CHECKSIG / CHECKSIGVERIFY / CHECKMULTISIG / CHECKSIGADD checking '
